@@ -38,8 +38,36 @@ func positionOnlyUse(w *World, v ssa.Value, depth int) bool {
 			if !ok {
 				return false
 			}
-			if _, f, _, _ := fieldOf(fa); f != "Line" && f != "Column" {
+			tn, f, _, _ := fieldOf(fa)
+			if !strings.EqualFold(f, "Line") && !strings.EqualFold(f, "Column") {
 				return false
+			}
+			if tn != "SyntaxError" && !isModelType(derefPtr(fa.X.Type())) {
+				// a scratch record holding a position: every read of that member must again be position-only
+				for _, fn := range w.srcFuncs {
+					okAll := true
+					forEachInstr(fn, func(_ *ssa.BasicBlock, ins ssa.Instruction) {
+						var val ssa.Value
+						switch y := ins.(type) {
+						case *ssa.Field:
+							if tn2, f2, _, _ := fieldOf(y); tn2 == tn && f2 == f {
+								val = y
+							}
+						case *ssa.UnOp:
+							if fa2, ok := y.X.(*ssa.FieldAddr); ok && y.Op == token.MUL {
+								if tn2, f2, _, _ := fieldOf(fa2); tn2 == tn && f2 == f {
+									val = y
+								}
+							}
+						}
+						if val != nil && depth < 3 && !positionOnlyUse(w, val, depth+1) {
+							okAll = false
+						}
+					})
+					if !okAll {
+						return false
+					}
+				}
 			}
 		case *ssa.MapUpdate:
 			if x.Value != v {
@@ -98,6 +126,13 @@ func positionOnlyUse(w *World, v ssa.Value, depth int) bool {
 		}
 	}
 	return true
+}
+
+func derefPtr(t types.Type) types.Type {
+	if p, ok := t.Underlying().(*types.Pointer); ok {
+		return p.Elem()
+	}
+	return t
 }
 
 // structFieldKey: "pkg.Type.field" when v is a load of a struct field, else "".
